@@ -1,10 +1,19 @@
 (* Correspondence cases shared by C05 and C07: what the harness observed on a
    real vm.VM (metric values, datum times, runtime-error counter after every
    line), re-computed by Lang/TimeReg.v with the time library tabulated. *)
-From Coq Require Import List ZArith Bool.
+From Coq Require Import List ZArith Bool String Ascii.
 From V Require Export Lang.TimeReg.
 Import ListNotations.
 Local Open Scope Z_scope.
+
+(* printable strings are written as Coq string literals in the case files
+   (much faster to read than lists of numbers) *)
+Fixpoint bs (s : string) : bytes :=
+  match s with
+  | EmptyString => []
+  | String a r => N_of_ascii a :: bs r
+  end.
+Arguments bs s%string_scope.
 
 (* one row per (layout, value) the case parses, for the case's zone and current
    year: None = time.Parse failed; Some (ns, year, ns after AddDate(year_now,0,0)) *)
